@@ -69,6 +69,7 @@ def searches(tier):
 
 
 def check(case, stats):
+    lib.run_primes(case.get("primes"))
     pred, ref, cfg = c01.resolve(case)
     cfg["gmetrics"] = case.get("gmetrics", [])
     pm = {int(k): v for k, v in case["pmap"].items()}
